@@ -8,6 +8,7 @@ module fails to compile (E0507/E0382) for a merely-Clone location type.
 import re
 
 from . import core
+from .core import callee_of, callee_args, origins
 from . import tmplutil as tu
 from .report import Report
 
@@ -60,7 +61,82 @@ def run(tier):
                           "(any grammar using @L/@R with such a location type)" % c.strip(),
                           key="loc-deref-move:%s:%s" % (m["fn"].split("::")[-1], re.sub(r"[^a-z]", "", c)),
                           file=m["file"], line=m["line"], fn=m["fn"])
+    type_plumbing_rules(rep, f)
     rep.analysed["location_projection_sites"] = n_proj
     rep.analysed["cloned"] = n_ok
     rep.floor("location projection sites", n_proj, 12)
     return rep
+
+
+def type_plumbing_rules(rep, f):
+    """Two necessary conditions of `inferred types agree with the generated code`:
+    (b) the type parameters given to the generated symbol enums are exactly those free in the symbol types (a kept
+        parameter that no field mentions is E0392): the set used to filter grammar.type_parameters must derive from the
+        `tys` argument only, never from grammar.where_clauses;
+    (c) every traversal of a pattern that reports `<T>` bindings visits every pattern form that can contain one
+        (Enum, Struct, Tuple, TupleStruct, Choose): no such variant may fall into a wildcard arm."""
+    fb = f.find(r"codegen::base::CodeGenerator::<.*>::filter_type_parameters_and_where_clauses$")
+    if len(fb) != 1:
+        rep.anchor_missing("filter_type_parameters_and_where_clauses")
+    else:
+        b = fb[0]
+        n = 0
+        for bi, t in b.calls():
+            if (callee_of(t) or "") != "std::iter::Iterator::filter" or "TypeParameter" not in callee_args(t):
+                continue
+            recv = origins(b, t["args"][0], transparent=lambda c: "all" if c else None, through_agg=True)
+            if not any(d[0] == "arg" and d[1] == 1 and "type_parameters" in d[2] for d in recv):
+                continue
+            n += 1
+            prov = origins(b, t["args"][1], transparent=lambda c: "all" if c else None, through_agg=True, record_calls=True, through_mut=True)
+            names = set()
+            for d in prov:
+                if d[0] == "arg":
+                    names |= set(d[2]) | {"arg%d" % d[1]}
+            ok = "where_clauses" not in names and "arg2" in names
+            rep.ob("type-params.kept-iff-free-in-symbol-types", "%s filter over grammar.type_parameters: predicate derives from %s" % (b.path.split("::")[-1], sorted(x for x in names if x.startswith("arg") or x == "where_clauses")), ok,
+                   "the set of type parameters kept for the generated symbol enums also depends on grammar.where_clauses: a parameter that occurs only in a "
+                   "bound (e.g. `C` in `T: FromCtx<C>`) is declared on `enum __Symbol<..>` without being used by any variant (E0392)",
+                   key="type-params-from-where-clauses", file=b.relfile(), line=t["ln"], fn=b.path)
+        rep.floor("filters over grammar.type_parameters", n, 1)
+    pk = f.adts.get("lalrpop::grammar::pattern::PatternKind")
+    if pk is None:
+        rep.anchor_missing("PatternKind")
+        return
+    carriers = {i: v["name"] for i, v in enumerate(pk["variants"]) if any(("Pattern<" in fl["ty"]) or fl["ty"].strip() == "T" for fl in v["fields"])}
+    n = 0
+    for p, b in f.bodies.items():
+        if b.unit != "lalrpop-lib" or b.kind == "promoted" or not p.startswith("lalrpop::grammar::pattern::"):
+            continue
+        if not any("dyn for<" in b.local_ty(i) or "dyn std::ops::FnMut" in b.local_ty(i) or "dyn FnMut" in b.local_ty(i) for i in range(1, b.argc + 1)):
+            continue
+        for sb, bl in enumerate(b.blocks):
+            t = bl["t"]
+            if t["k"] != "switch" or bl["cleanup"]:
+                continue
+            l = core.op_local(t["o"])
+            is_pk = False
+            for _, si, d in (b.defs.get(l, []) if l is not None else []):
+                if si != "t" and d["r"]["k"] == "discr":
+                    pl = d["r"]["p"]
+                    ty = b.local_ty(pl["l"])
+                    last_field_ty = [e[4] for e in pl["pr"] if e[0] == "field"]
+                    if "PatternKind<" in (last_field_ty[-1] if last_field_ty else ty):
+                        is_pk = True
+            if not is_pk:
+                continue
+            n += 1
+            tg = {v: x for v, x in t["targets"]}
+            oth = t["otherwise"]
+            for vi, name in carriers.items():
+                tgt = tg.get(vi, oth)
+                own = vi in tg and (tgt != oth or b.blocks[oth]["t"]["k"] == "unreachable")
+                # the arm must call something (recursion / the callback)
+                region = {x for x in range(len(b.blocks)) if b.dominates(tgt, x)} if own else set()
+                calls = [callee_of(b.blocks[x]["t"]) for x in region if b.blocks[x]["t"]["k"] == "call"]
+                ok = own and bool(calls)
+                rep.ob("bindings.traversal-covers-%s" % name, "%s: PatternKind::%s" % (p.split("pattern::")[-1], name), ok,
+                       "a traversal that reports the `<T>` bindings of a pattern does not descend into PatternKind::%s: type inference misses bindings in "
+                       "such patterns (e.g. `Tok::Num { value: <i64>, .. }`) while code generation still extracts them (E0308 in the generated module)" % name,
+                       key="pattern-traversal:%s:%s" % (p.split("::")[-1], name), file=b.relfile(), line=t["ln"], fn=p)
+    rep.floor("pattern traversals with a binding callback", n, 1)
